@@ -149,19 +149,48 @@ class Exec:
         return s
 
     def _check(self, s, ms):
-        """s.check() with a hard wall-clock limit (z3's own timeout is not always honoured by the seq solver)."""
-        import threading
+        """s.check() in a forked child with a hard wall-clock limit. z3's sequence solver sometimes ignores its timeout,
+        and interrupting it from a timer thread occasionally crashes libz3; a child that does not answer in time is
+        killed and the answer is `unknown` (which every caller treats conservatively)."""
+        import os
+        import select
         import time as _t
-        timer = threading.Timer(ms / 1000.0 * 1.5 + 0.2, s.ctx.interrupt)
-        timer.daemon = True
-        timer.start()
         t0 = _t.time()
+        r = z3.unknown
         try:
-            r = s.check()
-        except z3.Z3Exception:
-            r = z3.unknown
-        finally:
-            timer.cancel()
+            rd, wr = os.pipe()
+            pid = os.fork()
+        except OSError:
+            pid = -1
+        if pid == 0:
+            code = b"k"
+            try:
+                os.close(rd)
+                res = s.check()
+                code = b"s" if res == z3.sat else (b"u" if res == z3.unsat else b"k")
+            except BaseException:
+                code = b"k"
+            try:
+                os.write(wr, code)
+            finally:
+                os._exit(0)
+        elif pid > 0:
+            os.close(wr)
+            try:
+                ready, _, _ = select.select([rd], [], [], ms / 1000.0 * 1.5 + 0.3)
+                if ready:
+                    b = os.read(rd, 1)
+                    r = z3.sat if b == b"s" else (z3.unsat if b == b"u" else z3.unknown)
+            finally:
+                os.close(rd)
+                try:
+                    os.kill(pid, 9)
+                except OSError:
+                    pass
+                try:
+                    os.waitpid(pid, 0)
+                except OSError:
+                    pass
         self.solver_calls += 1
         self.solver_time += _t.time() - t0
         if r == z3.unknown:
